@@ -1,6 +1,6 @@
 package main
 
-// C05, domain c05q: the REAL PostgreSQL proxy of acra, in-process (vh.PgRig), with a scripted client
+// C05, domain c05q: the REAL PostgreSQL proxy of acra, in-process (censorrig.PgRig), with a scripted client
 // and a scripted fake back end, against Model/PgSession.v.
 //
 // Statement identifiers are seq*8+class; the SQL text is `SELECT n<class> FROM q<class> WHERE id = <seq>`
@@ -23,6 +23,7 @@ import (
 	"strings"
 	"time"
 
+	"acra-vh/censorrig"
 	"acra-vh/vh"
 )
 
@@ -56,13 +57,13 @@ type c5qEvent struct {
 	bad  bool
 }
 
-func pgQ(s string) vh.PgMsg { return vh.PgMsg{Type: 'Q', Payload: append([]byte(s), 0)} }
-func pgRow(v string) vh.PgMsg {
+func pgQ(s string) censorrig.PgMsg { return censorrig.PgMsg{Type: 'Q', Payload: append([]byte(s), 0)} }
+func pgRow(v string) censorrig.PgMsg {
 	p := []byte{0, 1, 0, 0, 0, byte(len(v))}
-	return vh.PgMsg{Type: 'D', Payload: append(p, v...)}
+	return censorrig.PgMsg{Type: 'D', Payload: append(p, v...)}
 }
-func pgNotice() vh.PgMsg {
-	return vh.PgMsg{Type: 'N', Payload: []byte("SNOTICE\x00Mhello\x00\x00")}
+func pgNotice() censorrig.PgMsg {
+	return censorrig.PgMsg{Type: 'N', Payload: []byte("SNOTICE\x00Mhello\x00\x00")}
 }
 
 func c5n8(n int) []byte {
@@ -193,7 +194,7 @@ func runC05qSession(rep *vh.Report, sc int, cy string, enc []byte, evs []c5qEven
 		}
 	}
 	replay := "censor:\n" + cy + "script: " + strings.Join(script, " ")
-	rig, err := vh.NewPgRig([]byte(cy), enc)
+	rig, err := censorrig.NewPgRig([]byte(cy), enc)
 	if err != nil {
 		rep.Count("rig-config-rejected")
 		return
@@ -211,8 +212,8 @@ func runC05qSession(rep *vh.Report, sc int, cy string, enc []byte, evs []c5qEven
 		rep.OracleChecks++
 		rep.Violate("hang", "the proxy did not produce the expected message: "+what, replay)
 	}
-	recvCli := func() (vh.PgMsg, bool) {
-		m, err := vh.Recv(rig.ToCli, c5qWait)
+	recvCli := func() (censorrig.PgMsg, bool) {
+		m, err := censorrig.Recv(rig.ToCli, c5qWait)
 		if err != nil {
 			return m, false
 		}
@@ -260,7 +261,7 @@ func runC05qSession(rep *vh.Report, sc int, cy string, enc []byte, evs []c5qEven
 			rep.Count(fmt.Sprintf("query-censored:%v", censored))
 			terms = append(terms, fmt.Sprintf("CQ %d %s", e.id, cb(censored)))
 		default:
-			var msg vh.PgMsg
+			var msg censorrig.PgMsg
 			switch e.kind {
 			case 'D':
 				if e.bad {
@@ -270,10 +271,10 @@ func runC05qSession(rep *vh.Report, sc int, cy string, enc []byte, evs []c5qEven
 				}
 				terms = append(terms, "DR "+cb(e.bad))
 			case 'C':
-				msg = vh.PgMsg{Type: 'C', Payload: []byte("SELECT 1\x00")}
+				msg = censorrig.PgMsg{Type: 'C', Payload: []byte("SELECT 1\x00")}
 				terms = append(terms, "DC")
 			case 'Z':
-				msg = vh.PgMsg{Type: 'Z', Payload: []byte{'I'}}
+				msg = censorrig.PgMsg{Type: 'Z', Payload: []byte{'I'}}
 				terms = append(terms, "DZ")
 			default:
 				msg = pgNotice()
@@ -284,7 +285,7 @@ func runC05qSession(rep *vh.Report, sc int, cy string, enc []byte, evs []c5qEven
 				return
 			}
 			// the proxy is done with the message: everything it emitted has at least been started
-			var got []vh.PgMsg
+			var got []censorrig.PgMsg
 			for rig.CliStarted() > cliSeen {
 				m, ok := recvCli()
 				if !ok {
